@@ -561,24 +561,25 @@ func runBuildVector(l *mc.Local, c mxCase, li int, base [][]bool) (class, what s
 	lv := levels[li]
 	n := qr.Size(c.V)
 	cw := vector(c)
-	ref := make([][]bool, n)
-	flat := make([]bool, n*n)
-	for r := 0; r < n; r++ {
-		ref[r] = flat[r*n : (r+1)*n]
-		copy(ref[r], base[r])
-	}
+	// the reference is base with the modules of the stream's 1 bits flipped; base is restored
+	// before returning (it is private to the calling job)
 	mods := qr.CodewordModules(c.V)
-	for i, b := range cw {
-		if b == 0 {
-			continue
-		}
-		for k := 0; k < 8; k++ {
-			if b&(0x80>>uint(k)) != 0 {
-				p := mods[i][k]
-				ref[p[0]][p[1]] = !ref[p[0]][p[1]]
+	flip := func() {
+		for i, b := range cw {
+			if b == 0 {
+				continue
+			}
+			for k := 0; k < 8; k++ {
+				if b&(0x80>>uint(k)) != 0 {
+					p := mods[i][k]
+					base[p[0]][p[1]] = !base[p[0]][p[1]]
+				}
 			}
 		}
 	}
+	flip()
+	defer flip()
+	ref := base
 	bits := gozxing.NewEmptyBitArray()
 	for _, b := range cw {
 		_ = bits.AppendBits(int(b), 8)
